@@ -17,13 +17,15 @@ C15 line-protocol driver. One case = one request through `Encode.ServeHTTP` in f
 Answer: `sel=<name|-> inm=<hex|~> sent=<status>[hdr]|- log=<events|-> live=[hdr]`, `unsupported`
 (q-value outside the modelled grammar / more than 12 elements) or `bad-op`.
 -/
-import CaddyModel.C15.Model
+import CaddyModel.C15.Caddyfile
 
 namespace CaddyModel.C15
 
 /-! sanity: the byte-list constants are the Go string literals -/
 #guard constTexts.all (fun p => p.1 == str p.2)
 #guard defaultCtPats == defaultCtPatTexts.map str
+#guard cfConstTexts.all (fun p => p.1 == str p.2)
+#guard canonKey (str "content-TYPE") == kCT && canonKey kCT == kCT && canonKey (str "x-a1-b") == str "X-A1-B"
 
 def asciiOk (b : Bytes) : Bool := b.all (fun c => c == 9 || (32 ≤ c && c ≤ 126))
 
@@ -57,10 +59,11 @@ def parseMatcher (s : String) : Option Matcher :=
     let cs ← if codes == "*" then some none
       else if codes == "_" then some (some [])
       else (codes.splitOn ",").mapM parseNat |>.map some
-    let ps ← if pats == "*" then some none
-      else if pats == "_" then some (some [])
-      else (pats.splitOn ",").mapM (fun p => (Hex.decode p).bind (fun b => if b.isEmpty then none else some b)) |>.map some
-    pure ⟨cs, ps⟩
+    let hs ← if pats == "*" then some []
+      else if pats == "_" then some [(kCT, some [])]
+      else (pats.splitOn ",").mapM (fun p => (Hex.decode p).bind (fun b => if b.isEmpty then none else some b))
+        |>.map (fun ps => [(kCT, some ps)])
+    pure ⟨cs, hs⟩
   | _ => none
 
 /-- header names must already be in canonical MIME form -/
@@ -170,12 +173,67 @@ def showResult (r : Result Nat) : String :=
   " log=" ++ (match showEvents r.final.log.reverse with | [] => "-" | l => ";".intercalate l) ++
   " live=" ++ showHdr r.final.hdr
 
+/-! ### the `cf` op: an `encode` directive of a Caddyfile → the configuration the handler runs with
+
+  cf <args> <block>     args = `-` | tok,tok…    block = `-` | line;line…
+                        line = tok,tok…[{subline|subline…}]   (tokens: [A-Za-z0-9_.!*/+=-]+)
+  answer: `cf offered=<sorted> prefer=<in order> min=<n> match=s=<*|codes>;h=<*|key:vals&…>` |
+          `cf err:parse` | `cf err:load` | `unsupported` | `bad-op` -/
+
+def cfTokOk (s : String) : Bool :=
+  !s.isEmpty && s.toList.all (fun c => c.isAlphanum || c == '_' || c == '.' || c == '!' || c == '*' ||
+    c == '/' || c == '+' || c == '=' || c == '-')
+
+def parseToks (s : String) : Option (List Bytes) :=
+  (s.splitOn ",").mapM (fun t => if cfTokOk t then some (str t) else none)
+
+def parseCfLine (s : String) : Option Line :=
+  match s.splitOn "{" with
+  | [l] => (parseToks l).map (fun t => ⟨t, none⟩)
+  | [l, rest] =>
+    if !rest.endsWith "}" then none else
+    let inner := (rest.dropEnd 1).toString
+    match parseToks l with
+    | none => none
+    | some t =>
+      if inner.isEmpty then some ⟨t, some []⟩
+      else ((inner.splitOn "|").mapM parseToks).map (fun ls => ⟨t, some ls⟩)
+  | _ => none
+
+def namesSorted (l : List Bytes) : List Bytes := (sortHdr (l.map (fun n => (n, ([] : List Bytes))))).map (·.1)
+
+def showNames (l : List Bytes) : String := if l.isEmpty then "-" else ",".intercalate (l.map bytesToString)
+
+def showMatcher (m : Matcher) : String :=
+  "s=" ++ (match m.codes with
+    | none => "*"
+    | some [] => "*"
+    | some cs => ",".intercalate (cs.map toString)) ++
+  ";h=" ++ (if m.headers.isEmpty then "*" else
+    "&".intercalate ((sortHdr (m.headers.map (fun e => (e.1, match e.2 with | none => [[]] | some vs => vs)))).map
+      (fun kv => Hex.encode kv.1 ++ ":" ++
+        (if kv.2 == [[]] then "!" else if kv.2.isEmpty then "_" else "|".intercalate (kv.2.map Hex.encode)))))
+
+def handleCf (args block : String) : String :=
+  match (if args == "-" then some [] else parseToks args),
+        (if block == "-" then some [] else (block.splitOn ";").mapM parseCfLine) with
+  | some a, some b =>
+    if !b.all lineSupported then "unsupported" else
+    match adaptEncode a b with
+    | .ok c => "cf offered=" ++ showNames (namesSorted c.offered) ++ " prefer=" ++ showNames c.prefer ++
+        " min=" ++ toString c.minLen ++ " match=" ++ showMatcher c.matcher
+    | .parseErr => "cf err:parse"
+    | .loadErr => "cf err:load"
+    | .unsupported => "unsupported"
+  | _, _ => "bad-op"
+
 def handle : List String → String
+  | ["cf", args, block] => handleCf args block
   | [enc, prefer, min, matcher, method, ae, ws, rcc, inm, dct, rf, script] =>
     match parseNames enc, parseNames prefer, parseInt min, parseMatcher matcher,
           optHex ae, optHex rcc, optHex inm, optHex dct, parseScript script with
     | some offered, some pref, some minLen, some m, some aeB, some rccB, some inmB, some dctB, some ops =>
-      if !(noDups offered && noDups pref && pref.all offered.contains) then "bad-op"
+      if !(noDups offered && validatePrefer offered pref) then "bad-op"
       else if !(method == "G" || method == "H" || method == "C") then "bad-op"
       else if !((ws == "0" || ws == "1") && (rf == "0" || rf == "1")) then "bad-op"
       else if !aeSupported aeB then "unsupported"
